@@ -205,7 +205,8 @@ def oracle_case(lines, outs):
         if t[0] == "case" or o == "exception:bad-op":
             continue
         if o is None or o.startswith("ABORT") or o.startswith("exception") or o == "SKIPPED":
-            bad.append((i, f"{ln}: abnormal result {o}"))
+            tag = "idl-sentinel-arith: " if ln.startswith(("idl.bounds", "idl.distance", "idl.equates")) and o and "signed integer overflow" in o else ""
+            bad.append((i, f"{tag}{ln}: abnormal result {o}"))
             return bad
         res, learnt, vals, dumps = c10.split(o)
         if t[0] in ("c", "prop") and res == "F":
